@@ -4,6 +4,7 @@ import (
 	"encoding/json"
 	"fmt"
 	"io"
+	"unicode/utf8"
 
 	"github.com/ohler55/slip"
 
@@ -26,6 +27,9 @@ type c02Stim struct {
 	Text  string `json:"text"`
 	Cuts  []int  `json:"cuts"`
 	Entry string `json:"entry"`
+	Base  int    `json:"base"` // *read-base*, 0 = leave the default
+	FFmt  string `json:"ffmt"` // *read-default-float-format*, "" = leave the default
+	Full  string `json:"full"` // when Text is a truncation: the text it was cut from
 }
 
 type c02Chunker struct {
@@ -78,7 +82,7 @@ func c02Status(o h.Outcome) string {
 func c02(args []string) {
 	out := h.NewOut()
 	defer out.Flush()
-	s := slip.NewScope()
+	s0 := slip.NewScope()
 	show := func(code slip.Code) []string {
 		r := []string{}
 		for _, o := range code {
@@ -92,8 +96,19 @@ func c02(args []string) {
 			panic(err)
 		}
 		data := []byte(st.Text)
+		s := s0.NewScope()
+		if st.Base != 0 {
+			s.Let(slip.Symbol("*read-base*"), slip.Fixnum(st.Base))
+		}
+		if st.FFmt != "" {
+			s.Let(slip.Symbol("*read-default-float-format*"), slip.Symbol(st.FFmt))
+		}
 		var objs0 []string
 		o0 := h.Try(func() slip.Object { objs0 = show(slip.ReadString(st.Text, s)); return nil })
+		objsFull := []string{}
+		if st.Full != "" {
+			h.Try(func() slip.Object { objsFull = show(slip.ReadString(st.Full, s)); return nil })
+		}
 		if objs0 == nil {
 			objs0 = []string{}
 		}
@@ -123,6 +138,43 @@ func c02(args []string) {
 						break
 					}
 				}
+			case "rfs":
+				// cl:read-from-string, one form at a time on what is left of the text
+				runes := []rune(st.Text)
+				off := 0
+				for off < len(runes) {
+					s.Let(slip.Symbol("vtext"), slip.String(string(runes[off:])))
+					// the form is built as data: reading it from text would happen under the altered *read-base*
+					v := s.Eval(slip.List{slip.Symbol("multiple-value-list"), slip.List{slip.Symbol("read-from-string"),
+						slip.Symbol("vtext"), nil, slip.List{slip.Symbol("quote"), slip.Symbol("v-eof")}}}, 0)
+					l, _ := v.(slip.List)
+					if len(l) != 2 || l[0] == slip.Symbol("v-eof") {
+						break
+					}
+					p := int(l[1].(slip.Fixnum))
+					objs = append(objs, slip.ObjectString(l[0]))
+					pos = append(pos, off+p)
+					if p <= 0 {
+						break
+					}
+					off += p
+				}
+			case "clseek":
+				// cl:read on a seekable string stream (one form)
+				s.Let(slip.Symbol("vstream"), slip.NewStringStream(data))
+				v := s.Eval(slip.List{slip.Symbol("read"), slip.Symbol("vstream"), nil,
+					slip.List{slip.Symbol("quote"), slip.Symbol("v-eof")}}, 0)
+				if v != slip.Symbol("v-eof") {
+					objs = append(objs, slip.ObjectString(v))
+				}
+			case "clread":
+				// cl:read on an input stream that hands over the bytes in the requested pieces (one form)
+				s.Let(slip.Symbol("vstream"), slip.NewInputStream(&c02Chunker{data: data, cuts: st.Cuts}))
+				v := s.Eval(slip.List{slip.Symbol("read"), slip.Symbol("vstream"), nil,
+					slip.List{slip.Symbol("quote"), slip.Symbol("v-eof")}}, 0)
+				if v != slip.Symbol("v-eof") {
+					objs = append(objs, slip.ObjectString(v))
+				}
 			case "push":
 				ch := make(chan slip.Object, 1000)
 				slip.ReadStreamPush(&c02Chunker{data: data, cuts: st.Cuts}, s, ch)
@@ -139,9 +191,20 @@ func c02(args []string) {
 			}
 			return nil
 		})
+		if st.Entry == "stream-one" || st.Entry == "readone" {
+			// these report byte offsets; the specification counts code points
+			for i, p := range pos {
+				if p < 0 || p > len(data) || (p < len(data) && !utf8.RuneStart(data[p])) {
+					pos[i] = -1
+				} else {
+					pos[i] = utf8.RuneCount(data[:p])
+				}
+			}
+		}
 		status := c02Status(o)
 		out.Emit(h.V{"t": st.ID, "text": h.CodePoints(st.Text), "cuts": st.Cuts, "entry": st.Entry,
-			"objs": objs, "objs0": objs0, "status": status, "status0": c02Status(o0), "pos": pos,
+			"objs": objs, "objs0": objs0, "full": objsFull, "trunc": st.Full != "", "status": status, "status0": c02Status(o0), "pos": pos,
+			"base": st.Base, "ffmt": st.FFmt,
 			"msg": fmt.Sprintf("%.80s", o.Msg)})
 	})
 }
